@@ -543,6 +543,7 @@ func (x *Exec) freshResult(st *State, resT types.Type) Value {
 // havocked; slices passed as arguments may have been written.
 func (x *Exec) abstractCall(e *ast.CallExpr, st *State, what string, resT types.Type, args []Value, recvVal Value) Value {
 	x.abstr["callee without contract: "+what] = true
+	x.checkSinks(e, st, what)
 	if !x.coarse {
 		x.fail(e.Pos(), "call to %s: no contract (strict unit)", what)
 	}
@@ -707,6 +708,8 @@ func (x *Exec) applyContract(e *ast.CallExpr, st *State, fn *types.Func, c *Cont
 		x.oblige(st, "pre", callName+"."+r.Label, r.Label, g, e.Pos())
 		st.add(g)
 	}
+	x.checkSinks(e, st, c.Short)
+	x.factSink = st
 	// frame
 	oldEnv := map[string]cbind{}
 	for k, v := range env {
@@ -775,6 +778,19 @@ func (x *Exec) applyModifies(st *State, c *Contract, fn *types.Func, env map[str
 		case strings.HasPrefix(mod, "map:"):
 			x.noteWrite(mod, nil)
 			x.havocHeapKey(st, mod)
+		case strings.HasPrefix(mod, "*"):
+			// *p : the cell a pointer parameter points to
+			b, ok := env[mod[1:]]
+			if !ok || b.t == nil {
+				x.fail(token.NoPos, "contract %s: bad modifies %q", c.Key, mod)
+				continue
+			}
+			pt, ok := b.t.Underlying().(*types.Pointer)
+			if !ok {
+				x.fail(token.NoPos, "contract %s: modifies %q: not a pointer", c.Key, mod)
+				continue
+			}
+			x.havocHeapAt(st, typeKey(pt.Elem()), pt.Elem(), x.scalarOf(b.v, b.t))
 		case strings.Contains(mod, "@"):
 			// p@T.f : field f of the *T that p (an interface or pointer) refers to
 			i := strings.Index(mod, "@")
